@@ -1,5 +1,6 @@
 import PP.Lemmas.Cut
 import PP.Lemmas.CutInv
+import PP.Lemmas.CutRace
 import PP.Props.C09b
 import PP.Props.C03
 /-
@@ -18,6 +19,21 @@ Vocabulary (lemma file `PP/Lemmas/Cut.lean`):
 * `afterCommon bs k = prefixL {} [] [] (cutCommon bs k)`;
 * `St.isRace st` — `st` is one of the race-report states (`gotRaceHeader1` … `betweenRaceGoroutines`);
   `NR st := st.isRace = false ∧ st ≠ .looking`.
+* race reports (lemma file `PP/Lemmas/CutRace.lean`): `St.isRaceBody` — after the two header
+  lines (`gotRaceOperationHeader` … `betweenRaceGoroutines`); `St.isRaceOp` — inside an operation
+  section (`gotRaceOperationHeader/Func/File`: the LAST goroutine is being written);
+  `St.isRaceCreW` — inside a creation section (`gotRaceGoroutineHeader/Func/File`: goroutine
+  `s.gi` is being written); `St.isRaceCre` — the creation part (`isRaceCreW` or
+  `betweenRaceGoroutines`: every operation section has been read);
+  `raceFrozen s` — the number of leading goroutines whose operation section is complete
+  (`s.gs.length - 1` inside an operation section, `s.gs.length` otherwise);
+  `raceWriting s` — the index being written, if any;
+  `RaceExt g g'` — equal but for `sig.state` and `sig.createdBy` (what a creation section sets;
+  an equivalence relation); `RacePartial g g'` — equal ids, `first`, address, read/write kind,
+  `locked`, sleep (what is fixed once the operation header has been read);
+  `StackGrows st st'` — same `elided`, `st.calls.length ≤ st'.calls.length` and
+  `st.calls.dropLast <+: st'.calls`;
+  `raceOpView g = (id, first, raceWrite, raceAddr, sig.stack)`.
 
 `PP/Lemmas/CutInv.lean` and `cut_no_panic` use C03 (`PP.Props.C03` and its lemma files).
 -/
@@ -370,6 +386,177 @@ theorem cut_prefix_goroutines_nonrace (bs : Bytes) (k : Nat) (fin fin' : RErr)
         · exact (scan_gsChange hsc).length_le.2
   · exact cut_prefix_goroutines bs k fin fin' s_c fwd_c cons_c hc ⟨hr, hl⟩
 
+/-! ### 4'. Goroutines of a race report read before the cut -/
+
+/-- when the loop is still running at the cut, both runs continue from the state reached there -/
+theorem cut_uncut_some (bs : Bytes) (k : Nat) (fin fin' : RErr)
+    (s_c : S) (fwd_c : Bytes) (cons_c : List Bytes)
+    (hc : afterCommon bs k = some (s_c, fwd_c, cons_c)) :
+    scanL {} [] [] (specLines (bs.take k) fin') = scanL s_c fwd_c cons_c [(cutFrag bs k, some fin')] ∧
+    scanL {} [] [] (specLines bs fin) =
+      scanL s_c fwd_c cons_c (specLines (cutFrag bs k ++ bs.drop k) fin) := by
+  rcases cut_uncut bs k fin fin' with ⟨h0, _⟩ | ⟨s', f', c', h0, h1, h2⟩
+  · rw [hc] at h0; simp at h0
+  · rw [hc] at h0
+    simp only [Option.some.injEq, Prod.mk.injEq] at h0
+    obtain ⟨rfl, rfl, rfl⟩ := h0
+    exact ⟨h1, h2⟩
+
+/-- The loop, started inside a race report (`h0`: no goroutine exists before the first operation
+header — part of the scanner invariant `Inv` of C03), whatever follows:
+* no goroutine is removed, and every goroutine keeps its index, id, `first`, address and
+  read/write kind (`RacePartial`), and the frames of its operation stack except possibly the
+  last one, whose file line may not have been read yet (`StackGrows`);
+* every goroutine whose operation section is complete (`i < raceFrozen s`: all of them, except
+  the last one while its operation section is being read) also keeps its operation stack: it is
+  only extended by creation sections (`RaceExt`: `sig.state` and `sig.createdBy` may differ) —
+  this includes the goroutine `s.gi` whose creation section is being read;
+* once all operation sections are read (`isRaceCre`), no goroutine is added and what the
+  operation sections said of every goroutine is final. -/
+theorem scanL_preserves_race (s : S) (fwd : Bytes) (cons : List Bytes)
+    (ys : List (Bytes × Option RErr)) (hr : s.st.isRace = true)
+    (h0 : s.st = .gotRaceHeader1 ∨ s.st = .gotRaceHeader2 → s.gs = []) :
+    let s' := (scanL s fwd cons ys).s
+    s.gs.length ≤ s'.gs.length ∧
+    (∀ (i : Nat) (g : Goroutine), s.gs[i]? = some g →
+      ∃ g', s'.gs[i]? = some g' ∧ RacePartial g g' ∧ StackGrows g.sig.stack g'.sig.stack ∧
+        (i < raceFrozen s → RaceExt g g')) ∧
+    (s.st.isRaceCre = true →
+      s'.gs.length = s.gs.length ∧ s'.gs.map raceOpView = s.gs.map raceOpView) := by
+  intro s'
+  by_cases hb : s.st.isRaceBody = true
+  · have hR : RaceRel s s' := (scanL_raceRel s fwd cons ys (Or.inl hb)).2
+    refine ⟨hR.len, ?_, fun hc => ⟨(hR.cre (Or.inl hc)).1, hR.map_opView hc⟩⟩
+    intro i g hg
+    obtain ⟨g', hg', hp, hw⟩ := hR.part i g hg
+    refine ⟨g', hg', hp, hw, fun hf => ?_⟩
+    obtain ⟨g'', hg'', hx⟩ := hR.ext i g hg hf
+    rw [hg'] at hg''
+    rw [Option.some.inj hg'']
+    exact hx
+  · have hnil := h0 (isRace_not_body hr hb)
+    refine ⟨by rw [hnil]; exact Nat.zero_le _, ?_, fun hc => absurd (isRaceCre_body hc) hb⟩
+    intro i g hg
+    rw [hnil] at hg
+    simp at hg
+
+/-- The stronger fact, for a goroutine no later creation section names: started inside a race
+report, a goroutine whose operation section is complete, which is not the one a creation
+section is being read for, and whose id no item of the continuation names in a
+`Goroutine N (…) created at:` header, is in the result exactly as it is now.
+(The hypothesis on the continuation cannot be replaced by a condition on the state: see the
+witness `race_completed_section_reopened` below.) -/
+theorem scanL_preserves_race_unnamed (s : S) (fwd : Bytes) (cons : List Bytes)
+    (ys : List (Bytes × Option RErr)) (hr : s.st.isRace = true)
+    (h0 : s.st = .gotRaceHeader1 ∨ s.st = .gotRaceHeader2 → s.gs = [])
+    (i : Nat) (g : Goroutine) (hg : s.gs[i]? = some g) (hf : i < raceFrozen s)
+    (hgi : s.st.isRaceCreW = true → s.gi ≠ i)
+    (hno : ∀ x ∈ ys, ∀ stt, (classify s.pfx x.1).raceGor ≠ some (some g.id, stt)) :
+    (scanL s fwd cons ys).s.gs[i]? = some g := by
+  by_cases hb : s.st.isRaceBody = true
+  · exact scanL_race_untouched s fwd cons ys i g hb hg hf hgi hno
+  · rw [h0 (isRace_not_body hr hb)] at hg
+    simp at hg
+
+/-- Cut inside a race report (`s_c.st.isRace`: the state after the complete lines before the
+cut is a race-report state).  For every goroutine `g` of `s_c.gs`, at index `i`:
+* both runs have a goroutine at index `i`, with the id, `first`, address and read/write kind of
+  `g` (`RacePartial`) and with the frames of `g`'s operation stack, except possibly the last
+  one (`StackGrows`: for the goroutine being read at the cut, the frames read before the cut);
+* unless `g` is the goroutine whose operation section is being read at the cut
+  (`i < raceFrozen s_c`), the three agree up to `RaceExt`: same operation stack too; only
+  `sig.state` and `sig.createdBy` — the creation section, which the uncut run may read later — may
+  differ;
+* the cut run differs from `s_c` in at most one goroutine: the one being written at the cut,
+  or the one a cut creation header selects.
+The cut run has at most one goroutine more than `s_c.gs`. -/
+theorem cut_prefix_goroutines_race (bs : Bytes) (k : Nat) (fin fin' : RErr)
+    (s_c : S) (fwd_c : Bytes) (cons_c : List Bytes)
+    (hc : afterCommon bs k = some (s_c, fwd_c, cons_c)) (hr : s_c.st.isRace = true) :
+    let cut := scanL {} [] [] (specLines (bs.take k) fin')
+    let uncut := scanL {} [] [] (specLines bs fin)
+    (∀ (i : Nat) (g : Goroutine), s_c.gs[i]? = some g →
+      ∃ gc gu, cut.s.gs[i]? = some gc ∧ uncut.s.gs[i]? = some gu ∧
+        RacePartial g gc ∧ RacePartial g gu ∧ RacePartial gc gu ∧
+        StackGrows g.sig.stack gc.sig.stack ∧ StackGrows g.sig.stack gu.sig.stack ∧
+        (i < raceFrozen s_c → RaceExt g gc ∧ RaceExt g gu ∧ RaceExt gc gu)) ∧
+    (∀ i, i < s_c.gs.length → raceWriting s_c ≠ some i →
+      (cut.s.st = .gotRaceGoroutineHeader → cut.s.gi ≠ i) → cut.s.gs[i]? = s_c.gs[i]?) ∧
+    s_c.gs.length ≤ cut.s.gs.length ∧ cut.s.gs.length ≤ s_c.gs.length + 1 ∧
+    s_c.gs.length ≤ uncut.s.gs.length := by
+  intro cut uncut
+  obtain ⟨h1, h2⟩ := cut_uncut_some bs k fin fin' s_c fwd_c cons_c hc
+  have h1' : cut = scanL s_c fwd_c cons_c [(cutFrag bs k, some fin')] := h1
+  have h2' : uncut = scanL s_c fwd_c cons_c (specLines (cutFrag bs k ++ bs.drop k) fin) := h2
+  have h0 : s_c.st = .gotRaceHeader1 ∨ s_c.st = .gotRaceHeader2 → s_c.gs = [] :=
+    fun h => afterCommon_looking_gs bs k s_c fwd_c cons_c hc (Or.inr h)
+  obtain ⟨a1, a2, _⟩ := scanL_preserves_race s_c fwd_c cons_c [(cutFrag bs k, some fin')] hr h0
+  obtain ⟨b1, b2, _⟩ := scanL_preserves_race s_c fwd_c cons_c
+    (specLines (cutFrag bs k ++ bs.drop k) fin) hr h0
+  rw [← h1'] at a1 a2
+  rw [← h2'] at b1 b2
+  refine ⟨?_, ?_, a1, by rw [h1']; exact scanL_last_len _ _ _ _ _, b1⟩
+  · intro i g hg
+    obtain ⟨gc, hgc, pc, wc, xc⟩ := a2 i g hg
+    obtain ⟨gu, hgu, pu, wu, xu⟩ := b2 i g hg
+    exact ⟨gc, gu, hgc, hgu, pc, pu, pc.symm.trans pu, wc, wu,
+      fun hf => ⟨xc hf, xu hf, (xc hf).symm.trans (xu hf)⟩⟩
+  · intro i hi hw hh
+    by_cases hb : s_c.st.isRaceBody = true
+    · rw [h1'] at hh ⊢
+      exact scanL_last_untouched s_c fwd_c cons_c _ _ hb i hi hw hh
+    · rw [h0 (isRace_not_body hr hb)] at hi
+      simp at hi
+
+/-- Cut in the creation part of a race report (every operation section lies before the cut):
+both runs have exactly the goroutines of `s_c`, and the ids, `first` flags, addresses,
+read/write kinds and operation stacks of ALL goroutines are identical in the cut run, in the
+uncut run and in `s_c`. -/
+theorem cut_race_operations_agree (bs : Bytes) (k : Nat) (fin fin' : RErr)
+    (s_c : S) (fwd_c : Bytes) (cons_c : List Bytes)
+    (hc : afterCommon bs k = some (s_c, fwd_c, cons_c)) (hcre : s_c.st.isRaceCre = true) :
+    let cut := scanL {} [] [] (specLines (bs.take k) fin')
+    let uncut := scanL {} [] [] (specLines bs fin)
+    cut.s.gs.map raceOpView = uncut.s.gs.map raceOpView ∧
+    cut.s.gs.map raceOpView = s_c.gs.map raceOpView ∧
+    cut.s.gs.length = s_c.gs.length ∧ uncut.s.gs.length = s_c.gs.length := by
+  intro cut uncut
+  obtain ⟨h1, h2⟩ := cut_uncut_some bs k fin fin' s_c fwd_c cons_c hc
+  have h1' : cut = scanL s_c fwd_c cons_c [(cutFrag bs k, some fin')] := h1
+  have h2' : uncut = scanL s_c fwd_c cons_c (specLines (cutFrag bs k ++ bs.drop k) fin) := h2
+  have hb := isRaceCre_body hcre
+  have a := (scanL_raceRel s_c fwd_c cons_c [(cutFrag bs k, some fin')] (Or.inl hb)).2
+  have b := (scanL_raceRel s_c fwd_c cons_c (specLines (cutFrag bs k ++ bs.drop k) fin) (Or.inl hb)).2
+  rw [← h1'] at a
+  rw [← h2'] at b
+  exact ⟨(a.map_opView hcre).trans (b.map_opView hcre).symm, a.map_opView hcre,
+    (a.cre (Or.inl hcre)).1, (b.cre (Or.inl hcre)).1⟩
+
+/-- Cut inside a race report: a goroutine of `s_c.gs` whose operation section is complete, which
+is not the one a creation section is being read for at the cut, and whose id neither the cut
+fragment nor any later line names in a creation header, is identical — `sig.state` and
+`sig.createdBy` included — in `s_c`, in the cut run and in the uncut run. -/
+theorem cut_race_unnamed_identical (bs : Bytes) (k : Nat) (fin fin' : RErr)
+    (s_c : S) (fwd_c : Bytes) (cons_c : List Bytes)
+    (hc : afterCommon bs k = some (s_c, fwd_c, cons_c)) (hr : s_c.st.isRace = true)
+    (i : Nat) (g : Goroutine) (hg : s_c.gs[i]? = some g) (hf : i < raceFrozen s_c)
+    (hgi : s_c.st.isRaceCreW = true → s_c.gi ≠ i)
+    (hfrag : ∀ stt, (classify s_c.pfx (cutFrag bs k)).raceGor ≠ some (some g.id, stt))
+    (hlater : ∀ x ∈ specLines (cutFrag bs k ++ bs.drop k) fin,
+      ∀ stt, (classify s_c.pfx x.1).raceGor ≠ some (some g.id, stt)) :
+    (scanL {} [] [] (specLines (bs.take k) fin')).s.gs[i]? = some g ∧
+    (scanL {} [] [] (specLines bs fin)).s.gs[i]? = some g := by
+  obtain ⟨h1, h2⟩ := cut_uncut_some bs k fin fin' s_c fwd_c cons_c hc
+  have h0 : s_c.st = .gotRaceHeader1 ∨ s_c.st = .gotRaceHeader2 → s_c.gs = [] :=
+    fun h => afterCommon_looking_gs bs k s_c fwd_c cons_c hc (Or.inr h)
+  rw [h1, h2]
+  refine ⟨scanL_preserves_race_unnamed s_c fwd_c cons_c _ hr h0 i g hg hf hgi ?_,
+    scanL_preserves_race_unnamed s_c fwd_c cons_c _ hr h0 i g hg hf hgi hlater⟩
+  intro x hx
+  simp only [List.mem_singleton] at hx
+  subst hx
+  exact hfrag
+
 /-! ### 5'. No crash -/
 
 /-- scanning a cut or failing stream does not panic (instance of C03) -/
@@ -497,6 +684,144 @@ example : view (scanL {} [] [] (specLines (two.take 83) .eof)) =
 example : view (scanL {} [] [] (specLines two .eof)) =
     (some (.reader .eof), .gotFileFunc, [(1, [1]), (2, [2])], false) := by decide
 
+/-! #### race reports -/
+
+private def race2 : Bytes :=
+  b!"==================\nWARNING: DATA RACE\nRead at 0x00c000012345 by goroutine 7:\n  main.f()\n      /a.go:1 +0x1\n\nPrevious write at 0x00c000012345 by goroutine 6:\n  main.g()\n      /a.go:2 +0x2\n\nGoroutine 7 (running) created at:\n  main.h()\n      /a.go:3 +0x3\n\nGoroutine 6 (finished) created at:\n  main.h()\n      /a.go:4 +0x4\n==================\n"
+
+/-- id, read/write kind, state, lines of the operation stack, lines of the creation stack -/
+private structure RG where
+  id : Nat
+  write : Bool
+  state : Bytes
+  op : List Nat
+  created : List Nat
+  deriving DecidableEq
+
+private def rview (o : OutL) :=
+  (o.err, o.s.st, o.s.gs.map (fun g => RG.mk g.id g.raceWrite g.sig.state
+    (g.sig.stack.calls.map (·.line)) (g.sig.createdBy.calls.map (·.line))), o.broke)
+
+private theorem isRace_of_map {bs : Bytes} {k : Nat} {st : St}
+    (h : (afterCommon bs k).map (fun x => x.1.st) = some st) (hst : st.isRace = true) :
+    ∃ s_c f c, afterCommon bs k = some (s_c, f, c) ∧ s_c.st.isRace = true ∧ s_c.st = st := by
+  cases h' : afterCommon bs k with
+  | none => rw [h'] at h; simp at h
+  | some v =>
+    obtain ⟨a, b, c⟩ := v
+    rw [h'] at h
+    simp only [Option.map_some, Option.some.injEq] at h
+    exact ⟨a, b, c, rfl, by rw [h]; exact hst, h⟩
+
+set_option maxRecDepth 20000 in
+/-- (a) cut inside the frames of the second operation (in the file line of `main.g`): the
+hypotheses of `cut_prefix_goroutines_race` hold, in state `gotRaceOperationFunc`, with
+`raceFrozen = 1`: goroutine 7 is complete, goroutine 6 is being written -/
+example : (afterCommon race2 175).map (fun x => (x.1.st, x.1.gs.length, raceFrozen x.1, raceWriting x.1)) =
+      some (.gotRaceOperationFunc, 2, 1, some 1) ∧
+    cutFrag race2 175 = b!"      /" := by decide
+set_option maxRecDepth 20000 in
+example : ∃ s_c f c, afterCommon race2 175 = some (s_c, f, c) ∧ s_c.st.isRace = true ∧
+    s_c.st = .gotRaceOperationFunc :=
+  isRace_of_map (by decide) (by decide)
+set_option maxRecDepth 20000 in
+/-- the cut run: a parse error about goroutine 6 replaces EOF; goroutine 7 has its operation
+stack, goroutine 6 is partial (its frame has no line number); no creation section was read -/
+example : rview (scanL {} [] [] (specLines (race2.take 175) .eof)) =
+    (some (.parse .raceFile), .gotRaceOperationFunc,
+     [⟨7, false, b!"", [1], []⟩, ⟨6, true, b!"", [0], []⟩], true) := by decide
+set_option maxRecDepth 20000 in
+/-- the uncut run: goroutine 7 differs from the cut run only by its creation section
+(`RaceExt`); goroutine 6 — being written at the cut — also by its operation stack -/
+example : rview (scanL {} [] [] (specLines race2 .eof)) =
+    (none, .done,
+     [⟨7, false, b!"running", [1], [3]⟩, ⟨6, true, b!"finished", [2], [4]⟩], false) := by decide
+
+set_option maxRecDepth 20000 in
+/-- (b) cut inside the first creation section (in the file line of its frame): the hypotheses of
+`cut_race_operations_agree` hold, in state `gotRaceGoroutineFunc`, goroutine 0 being written -/
+example : (afterCommon race2 241).map (fun x => (x.1.st, x.1.gs.length, raceFrozen x.1, raceWriting x.1,
+      x.1.st.isRaceCre)) = some (.gotRaceGoroutineFunc, 2, 2, some 0, true) ∧
+    cutFrag race2 241 = b!"      /a" := by decide
+set_option maxRecDepth 20000 in
+example : ∃ s_c f c, afterCommon race2 241 = some (s_c, f, c) ∧ s_c.st.isRace = true ∧
+    s_c.st = .gotRaceGoroutineFunc :=
+  isRace_of_map (by decide) (by decide)
+set_option maxRecDepth 20000 in
+/-- the cut run: both operation stacks are complete and equal to those of the uncut run;
+goroutine 7 has a partial creation section, goroutine 6 none -/
+example : rview (scanL {} [] [] (specLines (race2.take 241) .eof)) =
+    (some (.parse .raceFile), .gotRaceGoroutineFunc,
+     [⟨7, false, b!"running", [1], [0]⟩, ⟨6, true, b!"", [2], []⟩], true) := by decide
+set_option maxRecDepth 20000 in
+/-- a reader failure there is reported as such -/
+example : rview (scanL {} [] [] (specLines (race2.take 241) (.other 5))) =
+    (some (.reader (.other 5)), .gotRaceGoroutineFunc,
+     [⟨7, false, b!"running", [1], [0]⟩, ⟨6, true, b!"", [2], []⟩], true) := by decide
+
+/-- `cut_race_operations_agree` applies to (b) -/
+example : (scanL {} [] [] (specLines (race2.take 241) .eof)).s.gs.map raceOpView =
+    (scanL {} [] [] (specLines race2 .eof)).s.gs.map raceOpView := by
+  obtain ⟨s_c, f, c, h, _, hst⟩ := isRace_of_map (bs := race2) (k := 241)
+    (st := .gotRaceGoroutineFunc) (by set_option maxRecDepth 20000 in decide) (by decide)
+  exact (cut_race_operations_agree race2 241 .eof .eof s_c f c h (by rw [hst]; rfl)).1
+
+set_option maxRecDepth 20000 in
+/-- (c) cut between the two creation sections: `cut_race_unnamed_identical` applies to
+goroutine 7 (index 0) — its creation section lies before the cut and no later line names it —
+so it is identical, creation stack included, in both runs -/
+example : (scanL {} [] [] (specLines (race2.take 253) .eof)).s.gs[0]? =
+    (scanL {} [] [] (specLines race2 .eof)).s.gs[0]? := by
+  have hm : (afterCommon race2 253).map (fun x => (x.1.st, x.1.pfx, x.1.gs.map (·.id))) =
+      some (.betweenRaceGoroutines, [], [7, 6]) := by decide
+  cases h' : afterCommon race2 253 with
+  | none => rw [h'] at hm; simp at hm
+  | some v =>
+    obtain ⟨s_c, f, c⟩ := v
+    rw [h'] at hm
+    simp only [Option.map_some, Option.some.injEq, Prod.mk.injEq] at hm
+    obtain ⟨hst, hpfx, hids⟩ := hm
+    cases hgs : s_c.gs with
+    | nil => rw [hgs] at hids; simp at hids
+    | cons g t =>
+      rw [hgs] at hids
+      simp only [List.map_cons, List.cons.injEq] at hids
+      have hid : g.id = 7 := hids.1
+      have hfrag : ∀ stt, (classify s_c.pfx (cutFrag race2 253)).raceGor ≠ some (some g.id, stt) := by
+        rw [hpfx, hid]
+        exact raceGor_ne_of_map (by decide)
+      have hlater : ∀ x ∈ specLines (cutFrag race2 253 ++ race2.drop 253) .eof,
+          ∀ stt, (classify s_c.pfx x.1).raceGor ≠ some (some g.id, stt) := by
+        rw [hpfx, hid]
+        have : ∀ x ∈ specLines (cutFrag race2 253 ++ race2.drop 253) .eof,
+            ((classify [] x.1).raceGor.map (·.1)) ≠ some (some 7) := by decide
+        exact fun x hx => raceGor_ne_of_map (this x hx)
+      have := cut_race_unnamed_identical race2 253 .eof .eof s_c f c h' (by rw [hst]; rfl) 0 g
+        (by rw [hgs]; rfl) (by simp [raceFrozen, hst, St.isRaceOp, hgs])
+        (by rw [hst]; intro h; cases h) hfrag hlater
+      exact this.1.trans this.2.symm
+
+private def reopened : Bytes :=
+  b!"==================\nWARNING: DATA RACE\nRead at 0x00c000012345 by goroutine 7:\n  main.f()\n      /a.go:1 +0x1\n\nPrevious write at 0x00c000012345 by goroutine 6:\n  main.g()\n      /a.go:2 +0x2\n\nGoroutine 7 (running) created at:\n  main.h()\n      /a.go:3 +0x3\n\nGoroutine 7 (finished) created at:\n  main.k()\n      /a.go:9 +0x9\n==================\n"
+
+set_option maxRecDepth 20000 in
+/-- Why `scanL_preserves_race_unnamed` needs its hypothesis on the continuation: "the creation
+section of this goroutine has been read completely" is not a property of the state that freezes
+the goroutine.  A second `Goroutine 7 (…) created at:` section is accepted and applied to the
+same goroutine: cut after the first one (state `betweenRaceGoroutines`, goroutine 7 complete
+with `createdBy` = one frame), the uncut run overwrites its state and appends a frame to its
+`createdBy`.  Only `RaceExt` holds between the two. -/
+theorem race_completed_section_reopened :
+    (afterCommon reopened 253).map (fun x => (x.1.st, raceWriting x.1)) =
+      some (.betweenRaceGoroutines, none) ∧
+    rview (scanL {} [] [] (specLines (reopened.take 253) .eof)) =
+      (some (.reader .eof), .betweenRaceGoroutines,
+       [⟨7, false, b!"running", [1], [3]⟩, ⟨6, true, b!"", [2], []⟩], false) ∧
+    rview (scanL {} [] [] (specLines reopened .eof)) =
+      (none, .done,
+       [⟨7, false, b!"finished", [1], [3, 9]⟩, ⟨6, true, b!"", [2], []⟩], false) := by
+  decide
+
 private def bad : Bytes := b!"goroutine 1 [running]:\nbad\nxyz"
 
 /-- Why `reader_failure_not_masked` needs `afterCommon ≠ none`: the loop stops with a parse
@@ -535,6 +860,13 @@ end PP
 #print axioms PP.cut_prefix_goroutines
 #print axioms PP.cut_goroutines_agree
 #print axioms PP.cut_prefix_goroutines_nonrace
+#print axioms PP.cut_uncut_some
+#print axioms PP.scanL_preserves_race
+#print axioms PP.scanL_preserves_race_unnamed
+#print axioms PP.cut_prefix_goroutines_race
+#print axioms PP.cut_race_operations_agree
+#print axioms PP.cut_race_unnamed_identical
+#print axioms PP.race_completed_section_reopened
 #print axioms PP.cut_no_panic
 #print axioms PP.cut_error_kind_no_panic
 #print axioms PP.cut_delivery
